@@ -281,3 +281,34 @@ Theorem C05_slice_assignment_mirrors_as_a_multiset :
     Permutation (py_setslice a b ys l ++ py_getslice a b l) (l ++ ys).
 Proof. intros a b ys l. exact (setslice_mirror a b ys l). Qed.
 Print Assumptions C05_slice_assignment_mirrors_as_a_multiset.
+
+(* EList.__setitem__ with a slice, notifications included (Model/Slice.v elist_setslice: features without opposite
+   and without containment).  For a NON-EMPTY right-hand side the observer can apply everything it is told and holds
+   the new content as a multiset, for every pair of bounds and every prior content; a refused call reports nothing.
+   For an EMPTY right-hand side the statement is REFUTED on the faithful model: the last notification is an ADD whose
+   payload is the empty list itself (known finding F-C05-elist-item-write, `c[a:b] = []`). *)
+Theorem C05_slice_assignment_notifications_mirror :
+  forall ok (a b : option Z) (ys l l' : list Z) ns,
+    ys <> [] -> elist_setslice ok a b ys l = Ok (l', ns) ->
+    l' = py_setslice a b ys l /\ exists m, mirror l ns = Some m /\ Permutation m l'.
+Proof. exact elist_setslice_mirrors. Qed.
+Print Assumptions C05_slice_assignment_notifications_mirror.
+
+Theorem C05_slice_assignment_of_nothing_refuted :
+  forall ok (a b : option Z) (l l' : list Z) ns,
+    elist_setslice ok a b [] l = Ok (l', ns) -> mirror l ns = None /\ l' = py_delslice a b l.
+Proof. exact elist_setslice_empty_refuted. Qed.
+Print Assumptions C05_slice_assignment_of_nothing_refuted.
+
+Theorem C05_slice_assignment_refused_reports_nothing :
+  forall ok (a b : option Z) (ys l : list Z),
+    forallb ok ys = false -> elist_setslice ok a b ys l = Err BadValue.
+Proof. exact elist_setslice_refusal. Qed.
+Print Assumptions C05_slice_assignment_refused_reports_nothing.
+
+Example C05_slice_notifications_witness :
+  elist_setslice (fun _ => true) (Some 1%Z) (Some 3%Z) [8; 9]%Z [1; 2; 3; 4]%Z
+    = Ok ([1; 8; 9; 4]%Z, [NRemoveMany [2; 3]%Z; NAddMany [8; 9]%Z]) /\
+  mirror [1; 2; 3; 4]%Z [NRemoveMany [2; 3]%Z; NAddMany [8; 9]%Z] = Some [1; 4; 8; 9]%Z /\
+  elist_setslice (fun _ => true) (Some 0%Z) (Some 1%Z) [] [1; 2]%Z = Ok ([2]%Z, [NRemove 1%Z; NAddEmpty]).
+Proof. vm_compute. repeat split; reflexivity. Qed.
